@@ -1,5 +1,5 @@
 #!/usr/bin/env python3
-"""Regenerates the three generated blocks of DESIGN.md: the findings table of section 11 (from known_findings.json)
+"""Regenerates the four generated blocks of DESIGN.md (the fourth: the coverage table of section 15, from coverage/summary.json): the findings table of section 11 (from known_findings.json)
 the seeded-change result table of section 12 (from seeded/*/meta.json + seeded/*/summary.txt)
 and the table of property-preserving changes of section 14 (from benign/*/meta.json + benign/*/summary.txt)."""
 import json, os, re, glob
@@ -39,6 +39,13 @@ def put(doc, tag, body):
     a, b = "<!-- BEGIN %s -->" % tag, "<!-- END %s -->" % tag
     assert a in doc and b in doc, tag
     return doc[:doc.index(a) + len(a)] + "\n" + body + "\n" + doc[doc.index(b):]
+cov = json.load(open(os.path.join(V, "coverage", "summary.json")))
+rows = ["| property | source file | instrumented lines executed | functions never entered |", "|----------|-------------|-----------------------------|-------------------------|"]
+for pid in sorted(cov):
+    for b, v in sorted(cov[pid]["files"].items()):
+        rows.append("| %s | `%s` | %d of %d | %d of %d |" % (pid, b, v["lines_executed"], v["lines_instrumented"], len(v["functions_never_entered"]), v["functions"]))
+t15 = "\n".join(rows)
+doc = put(doc, "COVERAGE", t15)
 doc = put(doc, "FINDINGS", t11)
 doc = put(doc, "SEEDED", t12)
 doc = put(doc, "BENIGN", t14)
